@@ -21,7 +21,16 @@ PUNCT = 'Token.PUNCTUATION'
 
 # ---------------------------------------------------------------------------- primitives
 def p_commentdoc(it, a, k, n):
-    return DocV(D.Cmt(prov(a[0])))
+    """commentdoc(text): opaque comment document; records whether the text was known to be non-empty at the call
+    (an empty text makes the real function raise ValueError)"""
+    t = a[0] if a else k.get('text')
+    known = (isinstance(t, SymStr) and t.nonempty is True) or (isinstance(t, Const) and bool(t.v)) or \
+        it.memo.get('truthy(%s)' % prov(t)) is True
+    log = getattr(it, 'commentdoc_calls', None)
+    if log is None:
+        log = it.commentdoc_calls = []
+    log.append((prov(t), bool(known), getattr(n, 'lineno', 0)))
+    return DocV(D.Cmt(prov(t)))
 
 
 def p_pretty_python_value(it, a, k, n):
@@ -262,24 +271,32 @@ def uniform_in_index(fn_node, loop):
     idx = loop.target.elts[0]
     if not isinstance(idx, ast.Name):
         return False, 'index target is not a name'
-    uses = [n for st in loop.body for n in ast.walk(st) if isinstance(n, ast.Name) and n.id == idx.id]
-    ok_uses = 0
+    from engine.astutil import assigned_names, enclosing_map
+    assigned = set()
     for st in loop.body:
-        if isinstance(st, ast.Assign) and isinstance(st.value, ast.Compare) and len(st.value.ops) == 1 \
-                and isinstance(st.value.ops[0], ast.Eq):
-            names = [n for n in ast.walk(st.value) if isinstance(n, ast.Name) and n.id == idx.id]
-            t = src(st.value).replace(' ', '')
-            xs = src(loop.iter.args[0])
-            if names and t in ('%s==len(%s)-1' % (idx.id, xs), 'len(%s)-1==%s' % (xs, idx.id)):
-                ok_uses += len(names)
-    # subscript stores ``xs[idx] = ...`` (in-place replacement of the current element) are uniform too
-    for st in ast.walk(ast.Module(body=loop.body, type_ignores=[])):
-        if isinstance(st, ast.Subscript) and isinstance(st.slice, ast.Name) and st.slice.id == idx.id \
-                and src(st.value) == src(loop.iter.args[0].args[0] if isinstance(loop.iter.args[0], ast.Call) and loop.iter.args[0].args else loop.iter.args[0]):
-            ok_uses += 1
-    if len(uses) == ok_uses:
+        assigned |= assigned_names(st)
+    assigned |= {n.id for n in ast.walk(loop.target) if isinstance(n, ast.Name)}
+    par = enclosing_map(ast.Module(body=loop.body, type_ignores=[]))
+    xs = loop.iter.args[0]
+    bad = 0
+    for st in loop.body:
+        for n in ast.walk(st):
+            if not (isinstance(n, ast.Name) and n.id == idx.id):
+                continue
+            p = par.get(id(n))
+            # position test: idx compared for (in)equality with a loop-invariant expression
+            if isinstance(p, ast.Compare) and len(p.ops) == 1 and isinstance(p.ops[0], (ast.Eq, ast.NotEq)):
+                other = p.comparators[0] if p.left is n else p.left
+                names = {x.id for x in ast.walk(other) if isinstance(x, ast.Name)}
+                if not (names & assigned):
+                    continue
+            # in-place replacement of the current element: xs[idx] = ...
+            if isinstance(p, ast.Subscript) and p.slice is n and isinstance(p.ctx, ast.Store):
+                continue
+            bad += 1
+    if bad == 0:
         return True, ''
-    return False, 'loop index %s is used beyond "last = %s == len(xs) - 1" (%d other uses)' % (idx.id, idx.id, len(uses) - ok_uses)
+    return False, 'loop index %s is used beyond position tests against loop-invariant expressions (%d other uses)' % (idx.id, bad)
 
 
 # ---------------------------------------------------------------------------- printer level
